@@ -26,7 +26,8 @@ def e2e_part(run):
     return {"pkg": "cmd/corerad", "pkgname": "main", "run": run,
             "files": ["shared/zz_verif_doc_test.go", "e2e/zz_verif_main_test.go"],
             "extra_files": [{"src": "e2e/zz_verif_fakeos.go", "dst": "internal/system/zz_verif_fakeos.go"}],
-            "patches": E2E_PATCHES, "shards": {"quick": 12, "thorough": 16}}
+            "patches": E2E_PATCHES, "shards": {"quick": 12, "thorough": 16},
+            "old_timers": True}  # the timer channels of the binary as shipped (the module says go 1.22)
 
 
 WHOLE = ("whole-process part: the unmodified main() of cmd/corerad runs as a child process (the staged test binary re-executed) with real "
@@ -252,9 +253,11 @@ PROPS = {
         "level_note": "Trusts the rule list c12Expected (written from the statement) and the ndp codec.",
     },
     "C05": {
-        "pkg": "internal/corerad",
-        "files": ["corerad/zz_verif_C12_test.go", "corerad/zz_verif_sim_test.go", "corerad/zz_verif_C05_test.go"],
-        "run": "TestVerif_C05",
+        "parts": [
+            {"pkg": "internal/corerad", "files": ["corerad/zz_verif_C12_test.go", "corerad/zz_verif_sim_test.go", "corerad/zz_verif_C05_test.go"], "run": "TestVerif_C05",
+             "shards": {"quick": 8, "thorough": 16}},
+            {"pkg": "internal/corerad", "files": ["corerad/zz_verif_C05real_test.go"], "run": "TestVerif_C05real", "old_timers": True, "shards": {"quick": 1, "thorough": 4}},
+        ],
         "level": "exploration",
         "bubble": True,
         "quick": {"shards": 8},
@@ -274,9 +277,11 @@ PROPS = {
         "level_note": "Trusts math/rand's reduction of a raw draw into [0,n) and testing/synctest's fake clock.",
     },
     "C06": {
-        "pkg": "internal/corerad",
-        "files": ["corerad/zz_verif_C12_test.go", "corerad/zz_verif_sim_test.go", "corerad/zz_verif_adv_test.go", "corerad/zz_verif_C06_test.go"],
-        "run": "TestVerif_C06",
+        "parts": [
+            {"pkg": "internal/corerad", "files": ["corerad/zz_verif_C12_test.go", "corerad/zz_verif_sim_test.go", "corerad/zz_verif_adv_test.go", "corerad/zz_verif_C06_test.go"], "run": "TestVerif_C06",
+             "shards": {"quick": 8, "thorough": 16}},
+            {"pkg": "internal/corerad", "files": ["corerad/zz_verif_C06real_test.go"], "run": "TestVerif_C06real", "old_timers": True, "shards": {"quick": 1, "thorough": 4}},
+        ],
         "level": "exploration",
         "bubble": True,
         "quick": {"shards": 8},
@@ -299,6 +304,7 @@ PROPS = {
             {"pkg": "internal/corerad", "run": "TestVerif_C07", "shards": {"quick": 8, "thorough": 16},
              "files": ["corerad/zz_verif_C12_test.go", "corerad/zz_verif_sim_test.go", "corerad/zz_verif_adv_test.go", "corerad/zz_verif_C06_test.go", "corerad/zz_verif_C07_test.go"],
              "patches": [{"name": "rand-source", "file": "internal/corerad/advertise.go", "pattern": r"rand\.NewSource\(", "repl": "vkNewSource(", "count": 2}]},
+            {"pkg": "internal/corerad", "files": ["corerad/zz_verif_C06real_test.go"], "run": "TestVerif_C07real", "old_timers": True, "shards": {"quick": 1, "thorough": 4}},
             e2e_part("TestVerif_C07main"),
         ],
         "level": "exploration",
@@ -459,6 +465,8 @@ PROPS = {
         "parts": [
             {"pkg": "internal/corerad", "run": "TestVerif_C17",
              "files": ["shared/zz_verif_doc_test.go", "corerad/zz_verif_C12_test.go", "corerad/zz_verif_sim_test.go", "corerad/zz_verif_adv_test.go", "corerad/zz_verif_mon_test.go", "corerad/zz_verif_C06_test.go", "corerad/zz_verif_C04_test.go", "corerad/zz_verif_C17_test.go"]},
+            {"pkg": "internal/corerad", "run": "TestVerif_C17race", "race": True, "shards": {"quick": 2, "thorough": 8},
+             "files": ["shared/zz_verif_doc_test.go", "corerad/zz_verif_C12_test.go", "corerad/zz_verif_sim_test.go", "corerad/zz_verif_adv_test.go", "corerad/zz_verif_mon_test.go", "corerad/zz_verif_C06_test.go", "corerad/zz_verif_C04_test.go", "corerad/zz_verif_C17_test.go", "corerad/zz_verif_C17race_test.go"]},
             e2e_part("TestVerif_C17main"),
         ],
         "level": "exploration",
@@ -598,3 +606,9 @@ PROPS["C10"]["rule"] += " System call faults carry an errno from {ENETDOWN, EINT
 PROPS["C17"]["rule"] += " One configuration in five (both parts) has stanzas A, B, A' whose options share their metric labels without being neighbours in the RA."
 PROPS["C12"]["rule"] += " In half of the live cases every reception brings another foreign RA (single-valued options - MTU, captive portal - dropped, changed or added; everything re-drawn now and then), all handled by the one Advertiser."
 PROPS["C17"]["rule"] += " While requests overlap, address and route lookups of the plugins take 1 ms as well."
+REAL_TIMERS = "the real-clock part relies on the wall clock only for lower bounds that a correct program cannot miss (and 0.5 s of scheduling slack where two executions are compared); a failure counts only if the scenario fails again when repeated alone"
+PROPS["C05"]["rule"] += ' Real-clock part (1 / 10 cases of 32 simultaneous scenarios, 9..12 s each), built with the timer channels of the shipped binary (the module says go 1.22: asynctimerchan=1, whereas the bubble parts need asynctimerchan=0): the real multicast loop of one Advertiser run two or three times in a row (cancelled during its first wait, restarted after 0..4.5 s, as Dialer.Dial does): the first request of a run comes at once and no two requests of a run are closer than MinRtrAdvInterval (3 s).'
+PROPS["C06"]["rule"] += ' Real-clock part (1 / 10 cases of 32 simultaneous scenarios, 9..12 s each), built with the timer channels of the shipped binary (the module says go 1.22: asynctimerchan=1, whereas the bubble parts need asynctimerchan=0): a whole Advertiser.Run on an in-memory connection with solicitations from :: and from hosts of their own (also bursts of 24), link changes (re-initialisation on a new connection) and a terminating stop: multicast RAs of one connection at least 2.5 s apart (the final one aside).'
+PROPS["C07"]["rule"] += " Real-clock part (1 / 10 cases of 32 simultaneous scenarios, 9..12 s each), built with the timer channels of the shipped binary (the module says go 1.22: asynctimerchan=1, whereas the bubble parts need asynctimerchan=0): the same runs as C06's: every solicitation from a specified source read at least 2 s before the stop or link change got exactly one unicast RA, and no RA is sent to ::."
+for _id in ("C05", "C06", "C07"):
+    PROPS[_id]["assumptions"] = list(PROPS[_id]["assumptions"]) + [REAL_TIMERS]
